@@ -22,7 +22,13 @@
 (* Moving one nodal coordinate (of q or of u) by eps and evaluating in     *)
 (* dual arithmetic gives the value and the column of every Jacobian the    *)
 (* rod reports for that coordinate: r_OP_q, A_IB_q, v_P_q, J_P, J_P_q,     *)
-(* B_J_R, the strain Jacobians of _deval, q_dot_q, q_dot_u, g_S_q.         *)
+(* B_J_R, the strain Jacobians of _deval, q_dot_q, q_dot_u, g_S_q; the     *)
+(* element's weak form (internal forces of the displacement-based rods,    *)
+(* W_c la_c and the compliance residual of the mixed rods) is a sum over   *)
+(* quadrature points of expressions in these quantities and is evaluated   *)
+(* the same way (records from rods whose quadrature abscissae are          *)
+(* rational: the one-point rule as it is, rational points substituted for  *)
+(* the higher Gauss rules -- points and weights are data).                 *)
 (*                                                                         *)
 (* Mode "identities" (TLC on a lattice): the interpolated orientation of   *)
 (* the quaternion family is a rotation and stays one to first order        *)
@@ -91,6 +97,39 @@ JPcol(r, node, comp) ==
                         !.dk = IF r.dk = "q" THEN "q" ELSE "none"]
     IN Section(ru).vP
 
+\* ------------------------------------------------------------------ the weak form of an element
+\* At every quadrature point g (parameter with shape-function values g.N, g.Nxi; test functions of the virtual
+\* rotations g.Np, g.Npxi; weight g.w, reference length g.J, reference strains g.Gam0, g.Kap0) the stress
+\* resultants are  n = C_n (Gamma_bar / J - Gamma0), m = C_m (Kappa_bar / J - Kappa0)  (displacement based,
+\* diagonal stiffnesses Ei, Fi)  or the interpolated independent fields g.n, g.m (mixed).  Virtual work:
+\*   f_r[node] = - sum_g N'_node (A n) w
+\*   f_p[node] =   sum_g (- Np'_node m + Np_node (Gamma_bar x n + Kappa_bar x m)) w
+\* compliance residual (mixed):  c[node] = sum_g Nla_node (J C^-1 (n, m) - (strain_bar - J strain0)) w
+QP(r, g) ==
+    LET x == Section([r EXCEPT !.N = g.N, !.Nxi = g.Nxi])
+        Ji == RInv(R(g.J))  Jg == R(g.J)
+        nd(c) == IF r.form = "db" THEN DScale(R(r.Ei[c]), DSub(DScale(Ji, x.Gam[c]), DC(R(g.Gam0[c])))) ELSE DC(R(g.n[c]))
+        md(c) == IF r.form = "db" THEN DScale(R(r.Fi[c]), DSub(DScale(Ji, x.Kap[c]), DC(R(g.Kap0[c])))) ELSE DC(R(g.m[c]))
+        n == <<nd(1), nd(2), nd(3)>>  m == <<md(1), md(2), md(3)>>
+        An == DMatVec(x.A, n)
+        c1 == DCross(x.Gam, n)  c2 == DCross(x.Kap, m)
+        w == R(g.w)
+        cn(c) == DScale(w, DSub(DScale(RMul(Jg, RInv(R(r.Ei[c]))), n[c]), DSub(x.Gam[c], DC(RMul(Jg, R(g.Gam0[c]))))))
+        cm(c) == DScale(w, DSub(DScale(RMul(Jg, RInv(R(r.Fi[c]))), m[c]), DSub(x.Kap[c], DC(RMul(Jg, R(g.Kap0[c]))))))
+    IN [An |-> <<DScale(w, An[1]), DScale(w, An[2]), DScale(w, An[3])>>,
+        m |-> <<DScale(w, m[1]), DScale(w, m[2]), DScale(w, m[3])>>,
+        cr |-> <<DScale(w, DAdd(c1[1], c2[1])), DScale(w, DAdd(c1[2], c2[2])), DScale(w, DAdd(c1[3], c2[3]))>>,
+        c |-> <<cn(1), cn(2), cn(3), cm(1), cm(2), cm(3)>>]
+SumQ(n, F(_)) == IF n = 1 THEN F(1) ELSE IF n = 2 THEN DAdd(F(1), F(2)) ELSE DAdd(DAdd(F(1), F(2)), F(3))
+Weak(r) ==
+    LET nq == Len(r.qps)  nn == Len(r.qps[1].N)  nla == Len(r.qps[1].Nla)
+        Qs == IF nq = 1 THEN <<QP(r, r.qps[1])>> ELSE IF nq = 2 THEN <<QP(r, r.qps[1]), QP(r, r.qps[2])>> ELSE <<QP(r, r.qps[1]), QP(r, r.qps[2]), QP(r, r.qps[3])>>
+        fr(node, c) == DNeg(SumQ(nq, LAMBDA g : DScale(R(r.qps[g].Nxi[node]), Qs[g].An[c])))
+        fp(node, c) == SumQ(nq, LAMBDA g : DSub(DScale(R(r.qps[g].Np[node]), Qs[g].cr[c]), DScale(R(r.qps[g].Npxi[node]), Qs[g].m[c])))
+        cc(node, k) == SumQ(nq, LAMBDA g : DScale(R(r.qps[g].Nla[node]), Qs[g].c[k]))
+    IN [f |-> [i \in 1..(nn * 6) |-> LET node == ((i - 1) \div 6) + 1  c == ((i - 1) % 6) + 1 IN IF c <= 3 THEN fr(node, c) ELSE fp(node, c - 3)],
+        c |-> [i \in 1..(nla * 6) |-> cc(((i - 1) \div 6) + 1, ((i - 1) % 6) + 1)]]
+
 \* kinematic equation of one node
 Node(r) ==
     LET P == [c \in 1..4 |-> DD(R(r.P[c]), IF r.dk = "q" /\ r.dcomp = c THEN One ELSE Zero)]
@@ -127,6 +166,13 @@ XVerdict(r) ==
          THEN "J_P_q is not the derivative of J_P"
     ELSE IF Has(r, "JP") /\ \E n \in 1..Len(r.N), c \in 1..6 : ~VecIs(r.o_JP[(n - 1) * 6 + c], JPcol(r, n, c), "v")
          THEN "J_P is not the velocity of the point for unit generalized velocities"
+    ELSE ""
+WVerdict(r) ==
+    LET w == Weak(r) IN
+    IF Has(r, "f") /\ ~VecIs(r.o_f, w.f, "v") THEN "f_int_el / W_c_el la_c is not the virtual work of the stress resultants"
+    ELSE IF Has(r, "df") /\ ~VecIs(r.o_df, w.f, "d") THEN "f_int_el_qe / Wla_c_el_qe is not the derivative of the internal forces"
+    ELSE IF Has(r, "c") /\ ~VecIs(r.o_c, w.c, "v") THEN "c_el is not the weak compliance residual"
+    ELSE IF Has(r, "dc") /\ ~VecIs(r.o_dc, w.c, "d") THEN "c_el_qe is not the derivative of c_el"
     ELSE ""
 KVerdict(r) ==
     LET k == Node(r) IN
@@ -199,7 +245,7 @@ Init == IF Mode = "identities" THEN case \in Cases /\ l = 0 /\ verdicts = <<>> E
 Step ==
     /\ Mode = "trace"
     /\ \/ /\ l <= Len(TraceLog)
-          /\ LET r == TraceLog[l]  v == IF r.kind = "X" THEN XVerdict(r) ELSE KVerdict(r) IN
+          /\ LET r == TraceLog[l]  v == IF r.kind = "X" THEN XVerdict(r) ELSE IF r.kind = "W" THEN WVerdict(r) ELSE KVerdict(r) IN
              verdicts' = IF v = "" THEN verdicts ELSE Append(verdicts, [id |-> r.id, clause |-> v])
           /\ l' = l + 1
        \/ /\ l = Len(TraceLog) + 1
